@@ -306,7 +306,18 @@ func bViolation(key string, det map[string]interface{}) {
 
 var tagRe = regexp.MustCompile(`(^|\n|\(TAG )[a-z]+[0-9_]+`)
 
-func normReply(raw string) string { return tagRe.ReplaceAllString(raw, "${1}T") }
+var parenRe = regexp.MustCompile(`\(([^()]*)\)`)
+
+// normReply removes what legitimately differs between two executions: tags, and the order of
+// the items inside a parenthesised list (flag lists come out of a Go map).
+func normReply(raw string) string {
+	raw = tagRe.ReplaceAllString(raw, "${1}T")
+	return parenRe.ReplaceAllStringFunc(raw, func(g string) string {
+		w := strings.Fields(g[1 : len(g)-1])
+		sort.Strings(w)
+		return "(" + strings.Join(w, " ") + ")"
+	})
+}
 
 // replyOfScript runs a part-B script on a fresh store and returns the raw reply of every step.
 func replyOfScript(sc script) []string {
@@ -715,7 +726,9 @@ func searchFailure(q squery, what string, det map[string]interface{}) {
 	}
 }
 
-var combinators = map[string]bool{"NOT": true, "OR": true, "()": true}
+var combinators = []string{"OR", "NOT", "()"}
+
+var combTotal [3]int64 // queries containing each combinator
 
 func flushSearchFailures() {
 	sfailMu.Lock()
@@ -726,22 +739,61 @@ func flushSearchFailures() {
 		}
 		return sfails[i].q.wire < sfails[j].q.wire
 	})
+	isComb := func(c string) int {
+		for i, x := range combinators {
+			if x == c {
+				return i
+			}
+		}
+		return -1
+	}
 	single := map[string]bool{}
+	var combFail [3]int64
 	for _, f := range sfails {
+		if f.what != "result-set" {
+			continue
+		}
 		if len(f.q.classes) == 1 {
 			single[f.q.classes[0]] = true
 		}
+		seen := [3]bool{}
+		for _, c := range f.q.classes {
+			if i := isComb(c); i >= 0 && !seen[i] {
+				seen[i] = true
+				combFail[i]++
+			}
+		}
 	}
 	for _, f := range sfails {
+		if f.what != "result-set" {
+			// a property of the response form, not of the keys
+			bViolation("search-"+f.what, f.det)
+			continue
+		}
 		key := ""
 		for _, c := range f.q.classes {
-			if single[c] && !combinators[c] {
-				key = "search-" + f.what + ":" + c
+			if single[c] && isComb(c) < 0 {
+				key = "search-mismatch:" + c // a leaf key that is already wrong on its own
 				break
 			}
 		}
 		if key == "" {
-			key = searchKeyOf(f.q, f.what)
+			for i, c := range combinators {
+				has := false
+				for _, x := range f.q.classes {
+					if x == c {
+						has = true
+					}
+				}
+				// a combinator that goes wrong in a large share of its uses is the defect
+				if has && combFail[i]*20 >= atomic.LoadInt64(&combTotal[i]) {
+					key = "search-mismatch:" + c
+					break
+				}
+			}
+		}
+		if key == "" {
+			key = searchKeyOf(f.q, "mismatch")
 		}
 		bViolation(key, f.det)
 	}
@@ -749,6 +801,17 @@ func flushSearchFailures() {
 
 func checkSearch(srv *server, b *bBox, uidF, es bool, q squery, r reply) {
 	atomic.AddInt64(&bst.searchCmds, 1)
+	{
+		seen := [3]bool{}
+		for _, c := range q.classes {
+			for i, x := range combinators {
+				if x == c && !seen[i] {
+					seen[i] = true
+					atomic.AddInt64(&combTotal[i], 1)
+				}
+			}
+		}
+	}
 	det := func(extra map[string]interface{}) map[string]interface{} {
 		d := map[string]interface{}{"script": bScript(b.name, true, r.cmd), "mailbox": b.name, "reply": r.raw}
 		for k, v := range extra {
@@ -779,16 +842,16 @@ func checkSearch(srv *server, b *bBox, uidF, es bool, q squery, r reply) {
 		atomic.AddInt64(&bst.searchNonEmpty, 1)
 	}
 	var got []uint32
-	bad := ""
+	bad, kind := "", "result-set"
 	if !es {
 		l := r.untagged("SEARCH")
 		if len(l) != 1 {
-			bad = fmt.Sprintf("%d SEARCH responses", len(l))
+			bad, kind = fmt.Sprintf("%d SEARCH responses", len(l)), "response-shape"
 		} else {
 			for _, w := range l[0].Words()[1:] {
 				n, ok := u32(w)
 				if !ok {
-					bad = "unparsable SEARCH response"
+					bad, kind = "unparsable SEARCH response", "response-shape"
 				}
 				got = append(got, n)
 			}
@@ -797,22 +860,24 @@ func checkSearch(srv *server, b *bBox, uidF, es bool, q squery, r reply) {
 	} else {
 		l := r.untagged("ESEARCH")
 		if len(l) != 1 {
-			bad = fmt.Sprintf("%d ESEARCH responses", len(l))
+			bad, kind = fmt.Sprintf("%d ESEARCH responses", len(l)), "response-shape"
 		} else if e, ok := parseESearch(l[0], r.tag); !ok {
-			bad = "unparsable ESEARCH response"
+			bad, kind = "unparsable ESEARCH response", "response-shape"
 		} else {
 			got = e.all
 			switch {
 			case !e.tagOK:
-				bad = "ESEARCH without the command's TAG"
+				bad, kind = "ESEARCH without the command's TAG", "esearch-tag"
 			case e.uid != uidF:
-				bad = "ESEARCH UID indicator wrong"
+				bad, kind = "ESEARCH UID indicator wrong", "esearch-uid-indicator"
+			case joinU32(got) != joinU32(want):
+				// reported below as a result-set difference
 			case !e.hc || e.count != uint32(len(want)):
-				bad = fmt.Sprintf("COUNT %d (present=%v), model says %d", e.count, e.hc, len(want))
+				bad, kind = fmt.Sprintf("COUNT %d (present=%v), model says %d", e.count, e.hc, len(want)), "esearch-count"
 			case len(want) == 0 && (e.hasAll || e.hasMin || e.hasMax):
-				bad = "ALL/MIN/MAX present although nothing matches"
+				bad, kind = "ALL/MIN/MAX present although nothing matches", "esearch-min-max"
 			case len(want) > 0 && (!e.hasMin || !e.hasMax || e.min != want[0] || e.max != want[len(want)-1]):
-				bad = fmt.Sprintf("MIN %d MAX %d, model says %d %d", e.min, e.max, want[0], want[len(want)-1])
+				bad, kind = fmt.Sprintf("MIN %d MAX %d, model says %d %d", e.min, e.max, want[0], want[len(want)-1]), "esearch-min-max"
 			}
 		}
 	}
@@ -820,8 +885,7 @@ func checkSearch(srv *server, b *bBox, uidF, es bool, q squery, r reply) {
 		bad = "result set differs"
 	}
 	if bad != "" {
-		what := "mismatch"
-		searchFailure(q, what, det(map[string]interface{}{"got": got, "want": want, "problem": bad, "uid_flavour": uidF, "esearch": es}))
+		searchFailure(q, kind, det(map[string]interface{}{"got": got, "want": want, "problem": bad, "uid_flavour": uidF, "esearch": es}))
 	}
 }
 
@@ -1354,9 +1418,46 @@ func partBMisc() {
 	}
 }
 
+// verifyStore checks that the set-up produced the store the part-B expectations are written
+// for; if the backend cannot even do that, one violation says so and part B stops.
+func verifyStore() bool {
+	srv := newServer("INBOX")
+	defer srv.close()
+	boxes := buildStore(srv)
+	c := srv.dial("v")
+	defer c.hangup()
+	for _, b := range boxes {
+		r1 := c.do("EXAMINE " + b.name)
+		r := c.do("UID FETCH 1:* (FLAGS RFC822.SIZE)")
+		var got, want []string
+		for _, u := range r.untagged("FETCH") {
+			if fr, err := parseFetch(u); err == nil {
+				got = append(got, fmt.Sprintf("%d:uid%s:%s:(%s)", fr.seq, fr.items["UID"].atom, fr.items["RFC822.SIZE"].atom, strings.Join(flagSetOf(fr.items["FLAGS"]), " ")))
+			}
+		}
+		for _, m := range b.msgs {
+			want = append(want, fmt.Sprintf("%d:uid%d:%d:(%s)", m.Seq, m.UID, m.Size, canonFlags(m.Flags)))
+		}
+		if r1.status != "OK" || r.status != "OK" || strings.Join(got, ";") != strings.Join(want, ";") {
+			bViolation("part-B-store-set-up-differs-from-the-model", map[string]interface{}{"script": bScript(b.name, false, "UID FETCH 1:* (FLAGS RFC822.SIZE)"),
+				"mailbox": b.name, "got": got, "want": want, "reply": r.raw, "note": "APPEND / STORE / UID EXPUNGE of the set-up did not produce the planned mailbox; the query spaces were not run"})
+			return false
+		}
+	}
+	return true
+}
+
+var bSkipped bool
+
 func partB() {
 	t0 := time.Now()
 	thorough := run.Thorough()
+	if !verifyStore() {
+		flushBViolations()
+		run.Set("B_skipped_because_store_set_up_failed", true)
+		bSkipped = true
+		return
+	}
 	partBSearch(thorough)
 	t1 := time.Now()
 	partBFetch(thorough)
